@@ -204,4 +204,26 @@ def engine_roundtrip(lib, hb):
                         ci = True
     if any(n.endswith("RegexBuilder::case_insensitive") for n in names):
         ci = True
-    return has_new and has_match and ci
+    if not (has_new and has_match and ci):
+        return False
+    # every path of the helper answers `true` only because the two strings are equal, or hands back the engine's own verdict
+    try:
+        params = [ccp.Sym("p%d" % i) for i in range(1, hb.arg_count + 1)]
+        leaves = ccp.Machine([lib]).run(hb, params)
+    except Exception:
+        return False
+    for l in leaves:
+        if l.kind != "return":
+            return False
+        v = l.value
+        if isinstance(v, ccp.Const) and v.v is False:
+            continue
+        if isinstance(v, ccp.Const) and v.v is True:
+            if any(re.match(r"^(?:Eq\(p\d, p\d\)|.*PartialEq.*::eq\(p\d, p\d\))$", a) and val == "True" for a, val in l.label):
+                continue
+            return False
+        txt = ccp.show(v)
+        if isinstance(v, ccp.Call) and re.search(r"is_ok_and|is_some_and|Regex::is_match|map_or", v.callee) and "regex::Regex::new" in txt:
+            continue
+        return False
+    return True
